@@ -21,6 +21,9 @@ INVARIANTS
   Inv_C04_InOut
   Inv_C13_QueueSound
   Inv_C13_QueueComplete
+  Inv_X12_HTLC_Queue
+  Inv_X12_HTLC_ZeroQueue
+  Inv_X12_HTLC_Accepted_ModKnown
 PROPERTIES
   Act_C03_StateOrder
   Act_C03_ClaimSound
@@ -33,4 +36,8 @@ PROPERTIES
   Act_C04_Window
   Act_C13_OnceOnTime
   Act_RefundNeverFails
+  Act_X03_CreateRecord
+  Act_X04_Admission
+  Act_X04_InFlight
+  Act_X04_ParamsStored
 CHECK_DEADLOCK FALSE
